@@ -25,6 +25,44 @@ REPO = os.environ.get("VERIF_REPO", "/repo")
 ALL = ["C%02d" % i for i in range(1, 19)]
 
 
+class _Rename(ast.NodeTransformer):
+    """alpha-rename the locals of every function (parameters other than self/cls included)"""
+
+    def visit_FunctionDef(self, node):
+        if any(isinstance(c, ast.Call) and isinstance(c.func, ast.Name) and c.func.id in ("locals", "vars", "eval", "exec")
+               for c in ast.walk(node)):
+            return node                 # introspects its own names: renaming would change behaviour
+        names = set()
+        glob = set()
+        for n in ast.walk(node):
+            if isinstance(n, (ast.Global, ast.Nonlocal)):
+                glob.update(n.names)
+        for n in ast.walk(node):
+            if isinstance(n, ast.Name) and isinstance(n.ctx, (ast.Store, ast.Del)):
+                names.add(n.id)
+            elif isinstance(n, ast.ExceptHandler) and n.name:
+                names.add(n.name)
+        # parameters keep their names (callers may pass them by keyword)
+        allargs = node.args.posonlyargs + node.args.args + node.args.kwonlyargs
+        params = set(a.arg for a in allargs)
+        if node.args.vararg:
+            params.add(node.args.vararg.arg)
+        if node.args.kwarg:
+            params.add(node.args.kwarg.arg)
+        names -= params | glob
+        # nested function names and imported names are left alone
+        for n in ast.walk(node):
+            if isinstance(n, (ast.FunctionDef, ast.ClassDef)) and n is not node:
+                names.discard(n.name)
+        mapping = {x: x + "_rn" for x in names}
+        for n in ast.walk(node):
+            if isinstance(n, ast.Name) and n.id in mapping:
+                n.id = mapping[n.id]
+            elif isinstance(n, ast.ExceptHandler) and n.name in mapping:
+                n.name = mapping[n.name]
+        return node
+
+
 def overlay(kind):
     ov = {}
     for path in sorted(glob.glob(os.path.join(REPO, "shroud", "*.py"))):
@@ -32,6 +70,10 @@ def overlay(kind):
         text = open(path).read()
         if kind == "unparse":
             ov[rel] = ast.unparse(ast.parse(text)) + "\n"
+        elif kind == "rename":
+            tree = ast.parse(text)
+            _Rename().visit(tree)
+            ov[rel] = ast.unparse(tree) + "\n"
         elif kind == "shift":
             lines = text.split("\n")
             k = 0
@@ -54,7 +96,7 @@ def job(args):
 
 
 def main(argv):
-    kinds = [a for a in argv if a in ("unparse", "shift")] or ["unparse", "shift"]
+    kinds = [a for a in argv if a in ("unparse", "shift", "rename")] or ["unparse", "shift"]
     props = [a.upper() for a in argv if a.upper() in ALL] or ALL
     with Pool(16) as pool:
         base = {p: set(map(tuple, g)) for p, g, e in pool.map(job, [(p, None) for p in props])}
